@@ -65,7 +65,8 @@ async def _run(events, consumers):
                     obj = await proto.get("ecomax")
                     got.append([g, obj])
                 getters[g] = asyncio.ensure_future(getter())
-            await PI.settle(12)
+            await PI.settle(ev[2] if len(ev) > 2 else 12)
+        await PI.settle(12)
         # ids by first publication / first use
         handled = []
         for obj_idx, tag, _ in rec.calls:
@@ -113,6 +114,19 @@ class C10(Prop):
                             for j, p in enumerate(sorted(pos, reverse=True)):
                                 evs.insert(p, [2, 100 + m - 1 - j])
                             cases.append({"kind": "exhaustive", "events": evs, "consumers": consumers})
+        # tight schedules: only 0..3 scheduler yields between the completion of the class loading and a neighbouring
+        # arrival (the consumer that loaded the class and the consumer of the next frame resume in the same iterations)
+        for consumers in (1, 2, 3):
+            for before in (1, 2):
+                for after in (1, 2):
+                    for y1 in (0, 1, 2, 3):
+                        for y2 in (0, 1, 2, 3):
+                            evs = [[0, i + 1] for i in range(before)]
+                            evs[-1] = evs[-1] + [y1] if before > 1 else evs[-1]
+                            evs.append([1, 0, y2])
+                            evs += [[0, before + j + 1, rng.choice([0, 1, 12])] for j in range(after)]
+                            evs.append([2, 100])
+                            cases.append({"kind": "tight", "events": evs, "consumers": consumers})
         self.exhaustive = True
         return cases
 
@@ -123,7 +137,7 @@ class C10(Prop):
         return vloop.run(_run, c["events"], c["consumers"])
 
     def model_many(self, cases):
-        res = model.call_many("drun", [[True, c["events"]] for c in cases])
+        res = model.call_many("drun", [[True, [e[:2] for e in c["events"]]] for c in cases])
         return [[r[0], r[1], [list(p) for p in r[2]], sorted(list(p) for p in r[3]), r[4]] for r in res]
 
     def obs(self, c, b):
